@@ -335,6 +335,9 @@ def _check_object_from_file(query, filepath, allow_custom, version, encoding):
     stix_obj = parse(stix_json, allow_custom=allow_custom, version=version)
 
     if stix_obj["type"] == "bundle":
+        if not stix_obj.get("objects"):
+            # a bundle file without content holds nothing to answer with
+            return None
         stix_obj = stix_obj["objects"][0]
 
     # check against other filters, add if match
